@@ -31,9 +31,8 @@ def check(pid, tier, seed):
     r2, recs2, _ = tree_export(2, [3, 6], 12, ["bb"])
     r1, recs1, _ = tree_export(1, [], 0, ["bb"])
     single = [(x, e) for x in recs1 if len(x["log"]) == 1 for e in ("readfile", "readfilecb")] * 12
-    pool = [(x, e) for x in recs3 if 1 <= len(x["log"]) <= 4 for e in ("std",)] + \
-           [(x, e) for x in recs2 if 1 <= len(x["log"]) <= 4 for e in ("readdirscb", "readhistcb", "rc2cb", "readdirs", "readhist", "rc2", "readdirscb_rel", "readhistcb_rel")]
-    rnd.shuffle(pool)
+    pool = p_layers.round_robin(rnd, [[(x, "std") for x in recs3 if 1 <= len(x["log"]) <= 4]] * 3 +
+                                [[(x, e) for x in recs2 if 1 <= len(x["log"]) <= 4] for e in ("readdirscb", "readhistcb", "rc2cb", "readdirs", "readhist", "rc2", "readdirscb_rel", "readhistcb_rel")])
     # two drop-in directories per layer (CONFIG_DIRS list, econf_set_conf_dirs): a refusal in the first one stands
     r4, recs4, _ = tree_export(3, [3, 6], 4, ["bb"], nd=2)
     pool2 = [(x, e) for x in recs4 if 2 <= len(x["log"]) <= 4 and any(2 in row for row in x["pd"]) for e in ("config_dirs", "set_conf_dirs")]
